@@ -136,6 +136,15 @@ def stepLine (s : State) (line : String) : State × String :=
   if line == "dump" then (s, dump s) else
   match parseOp (words line) with
   | none => (s, "bad-op")
-  | some op => let (s', o) := step s op; (s', showOut o)
+  | some op =>
+    let (s', o) := step s op
+    match op, o with
+    | .createUpdate b _ _ _ _, .ok rc =>
+      -- the real `_create_batch_update` answers (update_id, start_job_group_id, start_job_id): the client derives the absolute ids
+      -- of its jobs / groups from them (C09 client_ids_agree); they are read off the update row
+      match s'.updates.find? (fun u => u.batch = b ∧ (u.id : Int) = rc) with
+      | some u => (s', s!"ok {rc} {u.startJob} {u.startGroup}")
+      | none => (s', showOut o)
+    | _, _ => (s', showOut o)
 
 def main : IO Unit := foldLines init stepLine
